@@ -14,6 +14,7 @@ PROP_CRATES = {
     "C13": ["region_cached", "region_local"],
     "C14": ["vicinal"],
     "C15": ["future_deque"],
+    "C16": ["nm_impl"],
     "C17": ["par_bench"],
     "C18": ["alloc_tracker"],
     "C19": ["cbh_storage", "cbh_codec"],
